@@ -627,6 +627,17 @@ func (w *world) run(c *Case) (data []byte, viaFile bool, err error) {
 	}
 	var lastType htypes.BindingType = htypes.OnKubernetesEvent
 	suppressed := 0
+	// A Tick / Request step that comes before any Enable step: the schedule / webhook bindings are enabled (as
+	// ShellOperator does independently of the kubernetes bindings), the kubernetes bindings are not - no monitor exists.
+	othersEnabled := false
+	enableOthers := func() {
+		if !othersEnabled {
+			w.ctrl.EnableScheduleBindings()
+			w.ctrl.EnableConversionBindings()
+			w.ctrl.EnableAdmissionBindings()
+			othersEnabled = true
+		}
+	}
 	for _, st := range c.Steps {
 		op := fmt.Sprint(st[0])
 		switch op {
@@ -643,9 +654,7 @@ func (w *world) run(c *Case) (data []byte, viaFile bool, err error) {
 					sel[fmt.Sprint(x)] = true
 				}
 			}
-			w.ctrl.EnableScheduleBindings()
-			w.ctrl.EnableConversionBindings()
-			w.ctrl.EnableAdmissionBindings()
+			enableOthers()
 			err := w.ctrl.HandleEnableKubernetesBindings(func(info controller.BindingExecutionInfo) {
 				for role := range sel {
 					if info.Binding == c.Names[role] {
@@ -687,8 +696,10 @@ func (w *world) run(c *Case) (data []byte, viaFile bool, err error) {
 				w.ctrl.HandleKubeEvent(ev, func(info controller.BindingExecutionInfo) { w.enqueue(htypes.OnKubernetesEvent, info) })
 			}
 		case "Tick":
+			enableOthers()
 			w.ctrl.HandleScheduleEvent(crontab, func(info controller.BindingExecutionInfo) { w.enqueue(htypes.Schedule, info) })
 		case "Request":
+			enableOthers()
 			switch c.Cfg.Other.Kind {
 			case "validating", "mutating":
 				bt := htypes.KubernetesValidating
